@@ -25,7 +25,7 @@ ASSUMPTIONS = [
     "run of the complete device by the observer c20_disc_mon (a violation by the device is reported as a failure, not ignored)",
     "complete-device targets use a raw UTMI bus (USBDevice: full-speed only, 12 MHz timing constants); reset chirping cannot occur there and "
     "the observer requires the reset sequencer's valid line to stay low.  High-speed operation (ULPI translator, chirp) is not exercised",
-    "tie configurations: OneHotMultiplexer with n sources / or-signal bits / data bits in {(2,0,2),(3,0,2),(3,2,1),(4,0,1)} (+ (2,1,3),(5,0,1),(3,1,2) "
+    "tie configurations: OneHotMultiplexer with n sources / or-signal bits / data bits in {(3,0,2),(3,2,1)} (+ (2,0,2),(4,0,1),(2,1,3),(5,0,1),(3,1,2) "
     "thorough), all input words; the real UTMIInterfaceMultiplexer with USBDevice's three sources over all valid/ready patterns and data bytes "
     "from a bit-covering set; USBDevice's transmit path (endpoints replaced by one port-only stub endpoint) by correspondence; the complete "
     "USBDevice (standard control endpoint, bulk IN + bulk OUT on endpoint 1, max packet 8 (and 64 thorough), status IN endpoint 2) "
@@ -195,9 +195,9 @@ def mk_txpath():
 
 
 def targets(tier):
-    cfgs = [(2, 0, 2), (3, 0, 2), (3, 2, 1), (4, 0, 1)]
+    cfgs = [(3, 0, 2), (3, 2, 1)]
     if tier != "quick":
-        cfgs += [(2, 1, 3), (5, 0, 1), (3, 1, 2)]
+        cfgs += [(2, 0, 2), (4, 0, 1), (2, 1, 3), (5, 0, 1), (3, 1, 2)]
     ts = [mk_mux(*c) for c in cfgs] + [mk_utmi_mux(), mk_txpath(), mk_usbdev(8)]
     if tier != "quick":
         ts.append(mk_usbdev(64))
@@ -477,6 +477,29 @@ def tie_theorem_names(targets, tier):
     return [f"C20_{t.name}" for t in targets if t.kind == "mux"]
 
 
-LEVEL_TEXT = "TBD"
-LEVEL_NOTE = "TBD"
-TECHNIQUE = "TBD"
+LEVEL_TEXT = ("PARTIAL. Machine-checked proof for the multiplexing and framing part, run-time monitoring for the rest. THEOREMS (hand models, "
+              "unbounded traces): (1) OneHotMultiplexer / UTMIInterfaceMultiplexer with any number of sources: if exactly one source is valid the "
+              "output is that source (valid, or-signals, data); if none is, the output is idle; if two are, the data lines carry source 0's data whoever "
+              "is transmitting (C20_mux_exclusive / _idle / _overlap). (2) USBDevice's transmit path (handshake generator + data generator + shared "
+              "CRC16 unit fed from the multiplexer output + chirp source, as wired in device.py): under the request discipline txq_env it equals in "
+              "every cycle the bus-owner specification built from the C04/C03 specification machines (C20_txpath_refines); per pair of transmitters "
+              "the valid lines are never high together (C20_txpath_exclusive); outside chirping every completed maximal tx_valid run hands the PHY "
+              "exactly one packet that is a handshake byte or PID ++ payload ++ CRC16(payload) (C20_txpath_runs_wellformed); the boolean checker "
+              "used by the observers decides that predicate (C20_checker_correct). (3) Tie theorems, re-proved each run: the netlists of "
+              "OneHotMultiplexer at small widths (all input words) and of the real 3-source UTMIInterfaceMultiplexer (all valid/ready patterns, data from "
+              "a bit-covering set) equal the multiplexer model on all traces. MONITORED ONLY (specification observers over simulator runs of the complete "
+              "USBDevice -- control + bulk IN/OUT + status endpoints -- driven over UTMI by a closed-loop host-script generator with random tx_ready): "
+              "every tx_valid run is a well-formed handshake or data packet with correct CRC16, comes from one source whose valid line is the only one "
+              "high, starts only after an IN/PING token or an OUT/SETUP data packet addressed to the device's current address, never overlaps rx_active "
+              "(c20_wire_mon); and the endpoints' request lines respect txq_env and, replayed through the transmit-path specification, reproduce the "
+              "device's tx lines (c20_disc_mon). The transmit path of the real device with a stub endpoint is compared with the model by correspondence.")
+LEVEL_NOTE = ("Not proved: that the endpoints obey the request discipline (mutual exclusion is proved FROM the trigger discipline, the discipline itself "
+              "is only observed on simulated runs, where a violation is reported as a failure); that transmissions are solicited; that they never overlap "
+              "reception -- these rest on the legal-host hypothesis (host waits for the response or 16 idle cycles) and on the endpoint logic (C07, C11-C13, "
+              "C17). The complete device is too large for certified reachability. Full-speed raw-UTMI configuration only: no chirp, no ULPI, no high speed. "
+              "Examples in Properties/C20.v show the hypotheses are needed: an ACK requested during a payload byte yields a CRC-correct packet carrying a "
+              "byte nobody sent; receive bytes during a data packet corrupt its CRC. Trusted: Coq kernel + vm_compute, Amaranth elaboration, "
+              "nir2coq.py/Netlist.v (validated each run against pysim), the host-script generator.")
+TECHNIQUE = ("Rocq proof: parametric list induction (multiplexer), simulation relation composing the C03/C04 specification machines under an explicit "
+             "request discipline, invariant proof for the run splitter; certified product-reachability for the multiplexer netlists; specification "
+             "observers + model correspondence over closed-loop host-script simulations of the complete device")
